@@ -13,6 +13,7 @@
 //! * limit  — label-length vectors around 63 / 255 through every constructor and combinator
 
 mod common;
+mod hashers;
 mod laws;
 mod limits;
 mod pairs;
@@ -101,7 +102,7 @@ fn main() {
         "E-ENUM. Octet alphabet O = {00 - . * 0 A Z [ \\ _ a z 7f 80 ff} (thorough) / {00 . @ A Z [ ` a z { 80 ff} (quick); labels = all strings over O of length 1..2 plus fill \
          labels of 62/63 octets; U1 = all absolute names of 0..2 labels over those labels; U2 = all names of 0..2 labels over \
          the 9-octet sub-alphabet {00 . A Z [ a z 80 ff} (quick: 7 octets {00 . A Z [ a ff}), absolute AND relative; UL = all names of 0..3 labels over {* *a a* ** a A b a.b 00 *x63}, absolute and relative; thorough adds U3 = 0..3 labels over {00 A [ a ff}. law family: on every name of U1, U2, UL: num_labels = labels - [first label is `*`], is_wildcard, is_root, iter/rev/len, len() = wire length - 1, to_lowercase, LowerName round trips and accessors, trim_to(k) for every k, base_name, into_wildcard; on every ordered pair of U2 and UL: eq_case, cmp_case (canonical order without folding), eq_ignore_root(_case), zone_of / zone_of_case / LowerName::zone_of = suffix relation. \
-         pair family: all ordered pairs of labels (Label eq/hash/cmp); ALL ordered pairs of U1 (Name eq/hash/cmp), of U2 (all clauses incl. \
+         pair family: all ordered pairs of labels (Label eq/hash/cmp); hash = recorded Hasher call sequence + SipHash + FxHash + length-prefixing hash on every equal pair and of every name against its lower-case twin, HashMap<Name|LowerName|RrKey, _, Fx> insert/lookup on every equal pair; ALL ordered pairs of U1 (Name eq/hash/cmp), of U2 (all clauses incl. \
          LowerName/RrKey eq/hash/cmp, absolute x relative) and of U3, oracle = vref::name (ASCII-folded label identity + flag; RFC 4034 \
          6.1 comparator via dense ranks); triple family: transitivity over all triples of a 1-label/2-label absolute+relative \
          universe. wire family: every name of U1 (+ names at 255 octets / 127 labels) x offsets {0,12,3ffe,3fff,4000} x \
@@ -118,7 +119,7 @@ fn main() {
          octets; text cases with escapes/star/underscore/hyphen/upper case; limit results at >= 253 octets or with a label >= 62.",
     );
     ctx.assume("vref::name (RFC 1035 3.1, RFC 4343, RFC 4034 6.1) and vref::wire::read_name are the reference");
-    ctx.assume("std DefaultHasher (SipHash with fixed keys) stands for 'any hasher' in eq => hash-equal");
+    ctx.assume("'Hash consistent with Eq for every Hasher' is judged as: equal values make the identical sequence of (stable) Hasher method calls, and hash equally under SipHash, the chunk-sensitive FxHasher 1.x algorithm and a length-prefixing hasher; HashMap<_, _, Fx> lookups by an equal key hit");
     ctx.assume("relative vs absolute names: RFC 4034 orders absolute names only; across the divide only a total order consistent with equality is demanded");
 
     // ------------------------------------------------------------------ pair family
@@ -412,6 +413,8 @@ fn main() {
     // ------------------------------------------------------------------ vacuity guards
     for class in [
         "pair:nontrivial-ordered",
+        "hash:fx-hashmap-lookup-by-case-variant-ok",
+        "hash:twin-with-other-case-compared",
         "wire:ok:pointer-emitted",
         "wire:ok:pointer-emitted-high-offset",
         "wire:ok:no-pointer",
